@@ -150,6 +150,7 @@ def _run(scn, fs, k, act):
         except Exception as e:  # noqa
             out["exc"] = type(e).__name__ + (":%s" % e.errno if isinstance(e, OSError) else "")
         fs.hook = None
+        fs.revive()
         out["log"] = [tuple(x) for x in fs.log]
         out["tree"] = {k_: v for k_, v in fs.snapshot("/").items()}
         out["nsteps"] = len(fs.log)
